@@ -30,6 +30,10 @@ def objdump_first(data, mode64):
             break
         nb += len(parts[1].split())
     valid = bool(text) and "(bad)" not in text and not text.startswith(".byte")
+    # a dangling prefix printed as an instruction of its own (rex.WB, data16, addr32, lock, repz, cs, ...) is not an instruction
+    first = text.split()[0] if text.split() else ""
+    if len(text.split()) == 1 and (first.startswith("rex") or first in ("data16", "addr16", "addr32", "data32", "lock", "rep", "repz", "repnz", "repe", "repne", "cs", "ds", "es", "ss", "fs", "gs", "notrack", "bnd")):
+        valid = False
     tgt = None
     m = re.search(r"\s0x([0-9a-f]+)\s*$", text)
     if m and re.match(r"^(j|call|loop|jmp)", text.split()[0] if text.split() else ""):
